@@ -41,6 +41,26 @@ def run(tier, wd):
                           {"engine": "values", "case": case, "expected": clean["sbu"]})
         if len(rep.cov["samples"]) < 4 and case["envs"] and rnd.random() < 0.01:
             rep.cov["samples"].append({"case": vc.describe(case), "specification_SetByUser": clean["sbu"], "library_SetByUser": r["sbu"]})
+    # (1b) two options that store into one variable, each with a flag of its own: a flag is true iff ITS option was given
+    sv_cases = []
+    for first, second in ((1, 1), (1, 0), (0, 1), (0, 0), (2, 1)):
+        for order in (0, 1):
+            a_ = []
+            for _ in range(first):
+                a_ += rnd.choice([["-o", "v"], ["--opt=v"], ["-ov"]])
+            b_ = []
+            for _ in range(second):
+                b_ += rnd.choice([["-p", "w"], ["--pair=w"], ["-pw"]])
+            sv_cases.append(({"type": "string", "role": "opt", "ptr": order == 1, "default": "dflt", "envs": [], "cli": [], "argv": (a_ + b_) if order == 0 else (b_ + a_),
+                              "spec": "[-o | -p]...", "pair": "samevar"}, first > 0, second > 0))
+    sv_res = core.run_harness(binpath, "values", [c_ for c_, _, _ in sv_cases], wd)
+    for (c_, w1, w2), r in zip(sv_cases, sv_res):
+        rep.cov["evaluations"] += 1
+        if r.get("skipped"):
+            continue
+        if r.get("hang") or r.get("crash") or not r.get("ran") or r.get("sbu") != w1 or r.get("sbu2") != w2:
+            rep.violation("two options -o and -p store into one variable, argv=%s: SetByUser flags are %s and %s (ran=%s), given on the line: %s and %s" % (
+                c_["argv"], r.get("sbu"), r.get("sbu2"), r.get("ran"), w1, w2), {"engine": "values", "case": c_, "expected": w1, "expected2": w2})
     # (2) several variables at once (standard program, recording types): the flag of every variable must be true iff the
     # derivation the library picked binds at least one token to it; environment-satisfied elements bind nothing
     p = g.STD_PROG
@@ -63,7 +83,7 @@ def run(tier, wd):
         tries = k = 0
         while k < per_spec and tries < per_spec * 5:
             tries += 1
-            items = g.sample_items(p, s["ast"], rnd)
+            items = g.sample_items(p, s["ast"], rnd, vals=("v", "w2", "u", "ae=z", "xo=1"))     # (values with an = behind an option letter)
             if rnd.random() < 0.5:
                 items = g.shuffle_runs(items, rnd)
             env = sorted(rnd.sample(keys, rnd.choice([0, 0, 1, 2])))
@@ -88,6 +108,14 @@ def run(tier, wd):
             continue
         specs.append({"ast": e_, "str": st, "prog": 0})
         for line in lines_:
+            groups.append({"rel": "single", "members": [{"si": len(specs) - 1, "env": [], "argv": line}]})
+    # an attached value that contains an = right behind the letter of another valued option (`-oae=z` is -o with the value ae=z)
+    for e_ in [g.Seq(g.Optional(E_), g.Optional(O_), g.Optional(X_)), g.Seq(g.Optional(g.Grp(["-e", "-o", "-b"])), g.Optional(X_)), g.Seq(g.Rep(g.Optional(g.Alt(E_, O_))))]:
+        st = g.render(p, e_)
+        if st in [x["str"] for x in specs]:
+            continue
+        specs.append({"ast": e_, "str": st, "prog": 0})
+        for line in (["-oae=z"], ["-oae=z", "x"], ["-boae=z"], ["-oe=z"], ["--out=e=z"], ["-o", "e=z"], ["-exo=1"], ["-e", "u", "-oxe=1"]):
             groups.append({"rel": "single", "members": [{"si": len(specs) - 1, "env": [], "argv": line}]})
     for si, s in enumerate(specs):
         if s.get("extra"):
@@ -134,7 +162,7 @@ def replay(path, wd):
     with open(path) as f:
         o = json.load(f)["replay"]
     if o.get("engine") == "values":
-        return vc.replay_values(path, wd, lambda o, r: not r.get("ran") or r.get("sbu") != o["expected"])
+        return vc.replay_values(path, wd, lambda o, r: not r.get("ran") or r.get("sbu") != o["expected"] or ("expected2" in o and r.get("sbu2") != o["expected2"]))
     binpath = core.build_harness()
     pf = wd + "/progs.json"
     json.dump(o["progs"], open(pf, "w"))
